@@ -505,3 +505,65 @@ class EnvTaint:
                 pass
             return real(self, key)
         E.__getitem__ = getitem
+
+
+# ------------------------------------------------------------------ fast mode for history-length scenarios
+class FastEC:
+    """Makes ONE derivation cost tens of microseconds instead of milliseconds, so that scenarios whose only variable is the
+    LENGTH of a history (10^5 .. 10^6 derivations on one parent, listings of 10^5 rows) fit into a check:
+      * the PRF is stubbed with a constant output (PRFStub), so every child has the same key material (index, depth, path,
+        parent link and all bookkeeping still differ), and
+      * the third-party ecdsa entry points the library calls (SigningKey.from_string, VerifyingKey.from_string /
+        from_public_point, PointJacobi.__add__) are memoised - same return values, no repository code is touched.
+    Judgements made under FastEC compare the library with ITSELF (what a held object said before and says after, counts,
+    order, path text, network tags), never with the reference model."""
+
+    def __init__(self, modules, I=bytes([7]) * 64):
+        self.stub = PRFStub(modules, plan=lambda key, msg: I)
+        self._undo = []
+
+    def __enter__(self):
+        import ecdsa
+        from ecdsa.ellipticcurve import PointJacobi
+
+        def memo_classmethod(cls, name, keyf):
+            raw = cls.__dict__[name]
+            orig = raw.__func__
+            cache = {}
+
+            def f(c, *a, **kw):
+                k = keyf(*a, **kw)
+                r = cache.get(k)
+                if r is None:
+                    r = cache[k] = orig(c, *a, **kw)
+                return r
+            setattr(cls, name, classmethod(f))
+            self._undo.append(lambda: setattr(cls, name, raw))
+
+        def cn(c):
+            return getattr(c, "name", None)
+        memo_classmethod(ecdsa.SigningKey, "from_string", lambda string, curve=None, *a, **kw: (bytes(string), cn(curve)))
+        memo_classmethod(ecdsa.VerifyingKey, "from_string", lambda string, curve=None, *a, **kw: (bytes(string), cn(curve)))
+        memo_classmethod(ecdsa.VerifyingKey, "from_public_point", lambda point, curve=None, *a, **kw: (point.x(), point.y(), cn(curve)))
+        orig_add = PointJacobi.__add__
+        addc = {}
+
+        def add(p, q):
+            k = (id(p), id(q))
+            r = addc.get(k)
+            if r is None:
+                res = orig_add(p, q)
+                addc[k] = (res, p, q)       # (operands kept alive: their ids stay theirs)
+                return res
+            return r[0]
+        PointJacobi.__add__ = add
+        self._undo.append(lambda: setattr(PointJacobi, "__add__", orig_add))
+        self.stub.__enter__()
+        return self
+
+    def __exit__(self, *exc):
+        self.stub.__exit__(*exc)
+        for u in reversed(self._undo):
+            u()
+        self._undo = []
+        return False
